@@ -341,6 +341,9 @@ func authorityCheck(s *Scn) {
 	if ok {
 		verif.Assert("success-implies-authority", authorized)
 		verif.Reach("authorized-success", true)
+		if s.Name == "ESDTSetRole" || s.Name == "ESDTUnSetRole" {
+			roleEffect(s)
+		}
 	} else {
 		// an attempt by anyone else changes no state
 		writes := false
@@ -423,6 +426,55 @@ func freezeCheck(s *Scn) {
 	}
 	verif.Reach("success", true)
 	verif.ObserveBool("ok", ok)
+}
+
+// roleEffect: what an account "currently holds" is what the history of set / unset calls says -
+// after a successful ESDTSetRole the list is the old list plus every listed role, after a
+// successful ESDTUnSetRole the old list minus every listed role (any number of listed roles,
+// held or not, in any order); nothing else appears or disappears.
+func roleEffect(s *Scn) {
+	args := s.In.Arguments
+	set := s.Name == "ESDTSetRole"
+	after := rolesAfter(s, s.Dst, args[0])
+	var before [][]byte
+	if c := s.Dst.Find(roleKey(args[0])); c != nil {
+		before = s.W.Codec.RolesOf(c.Init)
+	}
+	listed := args[1:]
+	isListed := func(r []byte) bool {
+		l := false
+		for _, x := range listed {
+			if len(x) == len(r) {
+				l = verif.Or(l, verif.BytesEq(x, r))
+			}
+		}
+		return l
+	}
+	for _, r := range listed {
+		if set {
+			verif.Assert("set-role-held-afterwards", countRoleBytes(after, r) >= 1)
+		} else {
+			verif.Assert("unset-role-gone-afterwards", countRoleBytes(after, r) == 0)
+		}
+	}
+	for _, r := range before {
+		kept := countRoleBytes(after, r) >= 1
+		if set {
+			verif.Assert("set-keeps-held-roles", kept)
+		} else {
+			verif.Assert("unset-keeps-unlisted-roles", verif.Or(isListed(r), kept))
+		}
+	}
+	for _, r := range after {
+		was := countRoleBytes(before, r) >= 1
+		if set {
+			verif.Assert("set-adds-only-listed-roles", verif.Or(was, isListed(r)))
+		} else {
+			verif.Assert("unset-adds-nothing", was)
+		}
+	}
+	verif.Reach("role-effect-checked", true)
+	verif.Reach("role-effect-two-listed", len(listed) == 2)
 }
 
 func metaOf(s *Scn, buf []byte) *esdt.MetaData {
